@@ -290,13 +290,62 @@ def fam_lineno(rng):
     rs = rules.gen_ruleset(rng, p_trail=0.2, p_chain=rng.choice([0.0, 0.2]))
     cfg = rt.Config(ledger=rng.random() < 0.5, backend=_backend(rng, cxx=True), topt=rng.choice(TOPTS), interactive=rng.choice([None, False]),
                     lineno=True, yymore=rng.random() < 0.5, array=rng.random() < 0.4)
-    return rs, cfg, _ops_case(kinds=['less', 'input', 'more', 'return'] if cfg.yymore else ['less', 'input', 'return'])
+    inner = _ops_case(kinds=['less', 'input', 'more', 'return'] if cfg.yymore else ['less', 'input', 'return'])
+
+    def gen(rng, rs, cfg):
+        c = inner(rng, rs, cfg)
+        if rng.random() < 0.5:
+            # lines of one or two characters: whatever is given back or read ahead contains newlines
+            c['srcs'] = [[10 if rng.random() < 0.3 else b for b in w] for w in c['srcs']]
+            for k in range(0, 80, 2):
+                if k not in c['acts'] and rng.random() < 0.5 and not (cfg.array and cfg.yymore):   # (F08)
+                    c['acts'][k] = ['%s:%d' % (rng.choice(['less', 'less3']), rng.randrange(0, 4))]
+        return c
+    gen.small = inner.small
+    return rs, cfg, gen
 
 
 def fam_trail(rng):
     rs = rules.gen_ruleset(rng, p_trail=0.6, p_bol=0.3, p_chain=rng.choice([0.0, 0.25, 0.4]))
     cfg = rt.Config(ledger=rng.random() < 0.5, backend=_backend(rng, cxx=True), topt=rng.choice(TOPTS), interactive=rng.choice([None, False]))
     return rs, cfg, _ops_case(kinds=['less', 'return'])
+
+
+def _wrapbol_case(rng, rs, cfg):
+    """the current buffer re-initialised over a new source — by yywrap() returning 0 (YY_NEW_FILE),
+    by yyrestart() between two calls of yylex or inside an action: the scanner is at the start of
+    an input buffer again, whatever the last token of the old source ended in (C06)"""
+    nsrc = 5
+    srcs = []
+    for i in range(nsrc):
+        w = rtgen.gen_input(rng, rs, maxlen=24)
+        if rng.random() < 0.6:
+            while w and w[-1] == 10:
+                w = w[:-1]                       # ends in the middle of a line
+        srcs.append(w)
+    wraps = [rng.randrange(1, nsrc) for _ in range(rng.randrange(1, 4))] + [None]
+    acts = {}
+    main = ['lex']
+    for k in range(120):
+        x = rng.random()
+        if x < 0.22:
+            acts[k] = ['return:%d' % rng.randrange(1, 90)]
+            main += ['restart:%d' % rng.randrange(1, nsrc), 'lex'] if rng.random() < 0.3 else ['lex']
+        elif x < 0.27:
+            acts[k] = ['restart:%d' % rng.randrange(1, nsrc)]
+        elif x < 0.33:
+            acts[k] = ['%s:%d' % (rng.choice(['less', 'less', 'less3']), rng.randrange(0, 4))]
+        elif x < 0.38:
+            acts[k] = ['atbol']
+    main = main[:14] + ['lex', 'lex', 'destroy']
+    return dict(srcs=srcs, main=main, acts=acts, wraps=wraps, sched=rtgen.gen_sched(rng),
+                bufsize=rng.choice(rtgen.BUFSIZES))
+
+
+def fam_wrapbol(rng):
+    rs = rules.gen_ruleset(rng, p_trail=0.15, p_bol=0.6, p_sc=0.3)
+    cfg = rt.Config(ledger=rng.random() < 0.3, backend=_backend(rng), topt=rng.choice(TOPTS), interactive=rng.choice([None, False]))
+    return rs, cfg, _wrapbol_case
 
 
 def fam_eof(rng):
@@ -403,7 +452,7 @@ def _buffers_case(rng, rs, cfg):
         if x < 0.25:
             acts[k] = ['return:%d' % rng.randrange(1, 90)]
         elif x < 0.32:
-            acts[k] = ['less:%d' % rng.randrange(0, 5)]
+            acts[k] = ['%s:%d' % (rng.choice(['less', 'less', 'less3']), rng.randrange(0, 5))]
         elif x < 0.38:
             acts[k] = ['input']
     return dict(srcs=srcs, main=main, acts=acts, wraps=None, sched=rtgen.gen_sched(rng),
@@ -428,7 +477,7 @@ def _include_case(rng, rs, cfg):
         elif x < 0.2:
             acts[k] = ['return:%d' % rng.randrange(1, 90)]
         elif x < 0.26:
-            acts[k] = ['less:%d' % rng.randrange(0, 4)]
+            acts[k] = ['%s:%d' % (rng.choice(['less', 'less', 'less3']), rng.randrange(0, 4))]
         elif x < 0.3:
             acts[k] = ['input']
         elif x < 0.33 and cfg.lineno:
@@ -478,4 +527,4 @@ def fam_matrix(rng, idx):
 
 
 FAMILIES = {'buffers': fam_buffers, 'include': fam_include, 'plain': fam_plain, 'ops': fam_ops, 'unput': fam_unput, 'reject': fam_reject,
-            'lineno': fam_lineno, 'trail': fam_trail, 'eof': fam_eof, 'deepstack': fam_deepstack, 'reads': fam_reads, 'bufreq': fam_bufreq, 'arraymore': fam_arraymore}
+            'lineno': fam_lineno, 'trail': fam_trail, 'eof': fam_eof, 'deepstack': fam_deepstack, 'reads': fam_reads, 'bufreq': fam_bufreq, 'arraymore': fam_arraymore, 'wrapbol': fam_wrapbol}
